@@ -31,7 +31,7 @@ Options ==
 
 Lists == UNION { [1..n -> Options] : n \in 0..MaxLen }
 
-Ctx(pk) == [pk |-> pk, tree |-> MCTree, umask |-> 18, noglob |-> FALSE, pmt |-> 1600000000]
+Ctx(pk) == [pk |-> pk, tree |-> MCTree, umask |-> 18, noglob |-> FALSE, pmt |-> 1600000000, pmtset |-> TRUE]
 
 MCInit == \E pk \in Packagers, es \in Lists : PlanInit(Ctx(pk), es)
 MCSpec == MCInit /\ [][PlanNext]_pvars
